@@ -87,7 +87,7 @@ impl Property for C01 {
             }
             match materialize(i, s, &dir, &tmp, &tz) {
                 Ok(m) => mats.push(m),
-                Err(e) => return Outcome::inconclusive(e),
+                Err(e) => return crate::sources::materialize_failed(e),
             }
         }
         let msgs: Vec<&[Msg]> = mats.iter().map(|m| &m.msgs[..]).collect();
